@@ -469,10 +469,10 @@ impl Check for C15 {
         vec!["bit positions of the reference are transcribed from RFC 791/8200, IEEE 802.1Q/802.1AE and RFC 3376 diagrams".into()]
     }
     fn units(&self, tier: Tier) -> u64 {
-        N_CTOR + Self::flow_units(tier) + (HDRS.len() as u64) * 2 + 1
+        N_CTOR + Self::flow_units(tier) + (HDRS.len() as u64) * 2 + 2
     }
     fn expect_reach(&self, _tier: Tier) -> Vec<String> {
-        vec!["ctor-ok".into(), "ctor-err".into(), "enc".into(), "dec-ok".into(), "dec-err".into(), "igmp-byte8".into()]
+        vec!["ctor-ok".into(), "ctor-err".into(), "enc".into(), "dec-ok".into(), "dec-err".into(), "igmp-byte8".into(), "ipv6-traffic-class".into()]
     }
     fn run_unit(&self, tier: Tier, u: u64, ctx: &mut Ctx) {
         let thorough = tier.is_thorough();
@@ -698,6 +698,56 @@ impl Check for C15 {
                     }
                 }
             }
+            return;
+        }
+        if u == (HDRS.len() as u64) * 2 + 1 {
+            // ---- IPv6 traffic class octet = DSCP(6) | ECN(2) through the struct level setters / getters, and what is encoded:
+            // every start value of the octet x every ECN / DSCP value
+            ctx.case(
+                None,
+                || CaseDesc { shape: "ipv6-traffic-class".into(), text: "Ipv6Header: every traffic_class x every set_ecn / set_dscp value, getters, to_bytes".into(), rank: 0 },
+                |case| {
+                    case.at("Ipv6Header::set_ecn/set_dscp");
+                    let mut n = 0u64;
+                    for tc in 0..=255u8 {
+                        let mk = || Ipv6Header { traffic_class: tc, flow_label: Ipv6FlowLabel::try_new(0xABCDE).unwrap(), payload_length: 0x1234, next_header: IpNumber(17), hop_limit: 9, source: [0x11; 16], destination: [0x22; 16] };
+                        let h0 = mk();
+                        if h0.ecn().value() != tc & 3 || h0.dscp().value() != tc >> 2 {
+                            case.fail("ipv6-traffic-class:getter", format!("traffic_class {:#04x}: ecn() {} dscp() {}", tc, h0.ecn().value(), h0.dscp().value()));
+                        }
+                        let base = h0.to_bytes();
+                        for e in 0..4u8 {
+                            let mut h = mk();
+                            h.set_ecn(IpEcn::try_new(e).unwrap());
+                            n += 1;
+                            let want = (tc & 0xfc) | e;
+                            let mut wb = base;
+                            wb[0] = 0x60 | (want >> 4);
+                            wb[1] = (want << 4) | (base[1] & 0x0f);
+                            if h.traffic_class != want || h.to_bytes() != wb || h.dscp().value() != tc >> 2 {
+                                case.fail("ipv6-traffic-class:set_ecn-alters-neighbour", format!("traffic_class {:#04x} set_ecn({}) -> {:#04x} (want {:#04x}), bytes {}", tc, e, h.traffic_class, want, hex(&h.to_bytes()[..4])));
+                            }
+                        }
+                        for d in 0..64u8 {
+                            let mut h = mk();
+                            h.set_dscp(IpDscp::try_new(d).unwrap());
+                            n += 1;
+                            let want = (d << 2) | (tc & 3);
+                            let mut wb = base;
+                            wb[0] = 0x60 | (want >> 4);
+                            wb[1] = (want << 4) | (base[1] & 0x0f);
+                            if h.traffic_class != want || h.to_bytes() != wb || h.ecn().value() != tc & 3 {
+                                case.fail("ipv6-traffic-class:set_dscp-alters-neighbour", format!("traffic_class {:#04x} set_dscp({}) -> {:#04x} (want {:#04x}), bytes {}", tc, d, h.traffic_class, want, hex(&h.to_bytes()[..4])));
+                            }
+                        }
+                    }
+                    case.states(n);
+                    case.evals(n);
+                    case.nontrivial_n(n);
+                    case.reach("ipv6-traffic-class");
+                    case.outcome("ipv6-traffic-class");
+                },
+            );
             return;
         }
         // ---- IGMPv3 query byte 8: resv(4) | S | QRV(3) through the setters, from every start byte
